@@ -526,6 +526,98 @@ Definition json_to_state (fl : flags) (C : classes) (limit : nat) (j : json) : o
   end.
 
 (* ---------------------------------------------------------------------------------- *)
+(* State shape with canonical callbacks, as ONE decidable predicate (hypothesis of the composed
+   round-trip theorem; evaluated on real states by the harness):
+   state.flow_states[*].heads[*] exist, the heads are distinct dataclass instances with the two
+   callback attributes, both attributes of every head are partial(_flow_head_changed, state, its
+   flow state), and no other object refers to a functools.partial. *)
+Definition pos_f : string := "position_changed_callback".
+Definition stat_f : string := "status_changed_callback".
+
+Definition val_eq_dec : forall a b : val, {a = b} + {a <> b}.
+Proof.
+  decide equality; [decide equality; try apply Z.eq_dec; try apply string_dec; apply bool_dec|apply Z.eq_dec].
+Defined.
+
+
+Definition cb_idx (h : heap) (hv : val) : option (id * string * list string * list val * nat * nat) :=
+  match hv with
+  | VO x =>
+    match lookup h x with
+    | Some (mk (HData c fds) ks) =>
+      match index_of pos_f fds, index_of stat_f fds with
+      | Some p, Some q =>
+        if negb (Nat.eqb p q) && Nat.ltb p (List.length ks) && Nat.ltb q (List.length ks)
+        then Some (x, c, fds, ks, p, q) else None
+      | _, _ => None
+      end
+    | _ => None
+    end
+  | _ => None
+  end.
+
+Definition val_eqb (a b : val) : bool := if val_eq_dec a b then true else false.
+
+Fixpoint heads_okb (h : heap) (W : list (val * val)) : bool :=
+  match W with
+  | [] => true
+  | (fs, hv) :: r =>
+    match cb_idx h hv with
+    | Some _ => negb (existsb (fun fh => val_eqb (snd fh) hv) r) && heads_okb h r
+    | None => false
+    end
+  end.
+
+Definition is_cb_node (h : heap) (state fs v : val) : bool :=
+  match v with
+  | VO a =>
+    match lookup h a with
+    | Some (mk (HPartial fn) [v1; v2]) => String.eqb fn cb_name && val_eqb v1 state && val_eqb v2 fs
+    | _ => false
+    end
+  | _ => false
+  end.
+
+Definition cb_okb (h : heap) (s : id) (W : list (val * val)) : bool :=
+  forallb (fun fh =>
+    match cb_idx h (snd fh) with
+    | Some (x, c, fds, ks, p, q) =>
+      match nth_error ks p, nth_error ks q with
+      | Some va, Some vb => is_cb_node h (VO s) (fst fh) va && is_cb_node h (VO s) (fst fh) vb
+      | _, _ => false
+      end
+    | None => false
+    end) W.
+
+Definition is_partialb (h : heap) (j : id) : bool :=
+  match lookup h j with Some (mk (HPartial _) _) => true | _ => false end.
+
+Definition head_pos_ok (h : heap) (W : list (val * val)) (i : id) (k : nat) : bool :=
+  existsb (fun fh => val_eqb (snd fh) (VO i)) W &&
+  match cb_idx h (VO i) with
+  | Some (x, c, fds, ks, p, q) => Nat.eqb k p || Nat.eqb k q
+  | None => false
+  end.
+
+Fixpoint kids_only (h : heap) (W : list (val * val)) (i : id) (k : nat) (l : list val) : bool :=
+  match l with
+  | [] => true
+  | v :: r =>
+    (match v with VO j => if is_partialb h j then head_pos_ok h W i k else true | VP _ => true end)
+    && kids_only h W i (S k) r
+  end.
+
+Definition onlyb (h : heap) (W : list (val * val)) : bool :=
+  forallb (fun kn => kids_only h W (fst kn) O (kids (snd kn))) h.
+
+Definition state_hyps (h : heap) (s : id) : bool :=
+  match collect_heads h (VO s) with
+  | Some W => heads_okb h W && cb_okb h s W && onlyb h W
+  | None => false
+  end.
+
+
+(* ---------------------------------------------------------------------------------- *)
 (* `supported`: exactly the node kinds the code handles (decidable) *)
 
 Definition reserved_tag (t : string) : bool :=
